@@ -90,6 +90,8 @@ func checkC07(c *Ctx) {
 	c.Rule("R7.13", "pooled buffers are released at most once (after a double release two sibling loggers build their contexts in one buffer)", 3)
 	c.As(map[string]string{"R8.4": "R7.13"}, func() { c8SingleRelease(c) })
 	c.Rule("R7.14", "nothing a derived logger keeps (the fields of a lazy With, a context buffer) points into a pooled object that is released: the next call to take that object from the pool would rewrite the child's context", 8)
+	c.Rule("R7.15", "WithLazy never evaluates a field at derivation: it calls no With itself, whatever the field types", 1)
+	c7LazyNeverEager(c, "R7.15")
 	c8UseAfterRelease(c, "R7.14", c8ReleaseFns(c))
 
 	mut := c.mutatesRecv()
